@@ -13,21 +13,21 @@ LEVEL_TEXT = {
     "C02": "Exploration with an exact oracle over boundary-focused abscissae (every grid point, both ends +- one ulp, far outside) and, inside operation histories, after every assignment/move/in-place update; the quantifier ranges over all real x, so the check concentrates on the places where interval selection can go wrong (neighbours of every grid point, float / double / long double / exact, grids up to 120 points, orders up to 64).",
     "C03": "Exploration over operation histories: a shadow model is advanced alongside a pool of real objects and compared after every step on every interval of the whole grid, with all 12 relative placements of supports and all order pairs required in every run. Exact for the rational scalar; histories catch drift and stale state that single calls cannot. Single-shot sweeps add every order pair up to 8 x 8, grids of up to 130 points and the extreme orders 11..64.",
     "C04": "Exploration over a compiled catalogue of all (operator, n, order) combinations with n = 0..8 and order 0..6 (133 instantiations) with an exact oracle; the template space is covered exhaustively within these bounds, the operand space by sampling; orders 11..64 with derivatives up to order+1 are sampled by the extreme-order driver.",
-    "C05": "Exploration over generated programs: each operator expression is a distinct template instantiation, so expressions are generated (catalogue + seed-dependent random set), compiled against the real headers and compared with an interpreter of the same AST over the exact model. Expression types are sampled, not enumerated.",
+    "C05": "Exploration over generated programs: each operator expression is a distinct template instantiation, so expressions are generated (catalogue + seed-dependent random set), compiled against the real headers and compared with an interpreter of the same AST over the exact model. Expression types are sampled, not enumerated; expressions with derivative orders up to 63 inside are run by the extreme-order driver.",
     "C06": "Exploration over generated programs with an exact-integral oracle plus metamorphic relations (swap, linearity, identity form, scalar product) evaluated through the library only, over all 12 placements and all four parity combinations of the kernel.",
     "C07": "Exploration over generated programs with an exact-integral oracle and the library-against-library relation BilinearForm == LinearForm of the product spline, over output sizes 1..8+ of both parities.",
-    "C08": "Exploration over systematically constructed grid pairs (10 kinds of difference incl. grids equal wherever the supports meet) x 15 entry points x placements: outcome (exception type and code), result and before/after snapshots of the arguments are monitored; equal twins must give results identical to a shared instance; long-lived operators and splines are confronted with freshly allocated different grids (address reuse).",
+    "C08": "Exploration over systematically constructed grid pairs (10 kinds of difference incl. grids equal wherever the supports meet) x 15 entry points x placements: outcome (exception type and code), result and before/after snapshots of the arguments are monitored; equal twins must give results identical to a shared instance; the spline factor is wrapped in ten expression shapes; long-lived operators and splines are confronted with freshly allocated different grids (address reuse).",
     "C09": "Sanitizer exploration: the workloads of all other checks re-run under ASan+UBSan with libstdc++ assertions (thorough: clang, checked STL, memcheck), with gcov accounting of the library lines reached, plus an exhaustive small-scope oracle for the checked accessors incl. indices near SIZE_MAX. A clean run is evidence for the executions performed, not a proof of memory safety.",
-    "C10": "Exploration over histories with an invariant walk at every quiescent point (after every step) through the public API only, plus the repository's own self-check hooks; includes moves, self-assignment, self-move, refused calls, failed constructions and injected allocation failures (countdown operator new) inside assignments and in-place operators.",
+    "C10": "Exploration over histories with an invariant walk at every quiescent point (after every step) through the public API only, plus the repository's own self-check hooks; includes moves, self-assignment, self-move, refused calls, failed constructions and injected faults: allocation failures (countdown operator new) inside assignments, in-place operators and non-mutating operations, and a scalar type whose k-th operation throws, for every k until the call completes.",
     "C11": "Exploration with an accept-iff-valid oracle: exhaustive for all point sequences up to length 6 (8 thorough) over a 7-letter alphabet incl. NaN and infinities through every constructor, exhaustive small index/count ranges for supports, splines, linearCombination and interpolation arguments, sampled knot vectors around the order bound.",
     "C12": "Exploration with an exact condition-by-condition oracle (generic interpolate over the exact scalar with a harness solver) and a backward-error oracle for the bundled solver against a system re-assembled independently from the statement.",
-    "C13": "Exhaustive within a small scope: every window, ordered pair and ordered triple of windows on grids of 2..7 (12 thorough) points against a set model, every window x ~100 index values incl. the extremes of size_t and values that alias small indices when truncated; sampled window triples on grids of 300 and 70 000 points; reference stability across const operations.",
-    "C14": "Exploration over histories with a frame-condition checker: bit-level deep snapshots of every pool object before and after every step, everything outside the declared write set must be identical (also after a call that throws - refused or hit by an injected allocation failure); evaluations must be repeatable in any order.",
+    "C13": "Exhaustive within a small scope: every window, ordered pair and ordered triple of windows on grids of 2..9 (12 thorough) points against a set model, every window x ~100 index values incl. the extremes of size_t and values that alias small indices when truncated; sampled window triples on grids of 300 and 70 000 points; reference stability across const operations; a long-lived support confronted with equal and different grids that are created and destroyed around it (address reuse counted).",
+    "C14": "Exploration over histories with a frame-condition checker: bit-level deep snapshots of every pool object before and after every step, everything outside the declared write set must be identical (also after a call that throws - refused, hit by an injected allocation failure, or interrupted by a scalar type whose own operations throw at the k-th operation for every k); evaluations must be repeatable in any order; the same histories also run compiled with clang++.",
     "C15": "Exploration: predicate results are compared with the exact denotation, with window arithmetic and with each other over histories and over systematically constructed grid pairs, plus near misses (one coefficient changed / non-zero, scaling by 0, underflow) up to order 64.",
     "C16": "Exploration in 18 build configurations (3 types x 3 optimisation levels x self-checks on/off) with an exact-rational oracle and the property's own constant 2^20 eps; digests of all result bit patterns must agree between the self-check on/off builds.",
     "C17": "Exploration with a probe callable that records the sampled abscissae (region oracle, all n) and an exact-integral oracle on both sides of the exactness bound, three floating types, n up to 32, weights returned in other types.",
     "C18": "Schedule exploration: ThreadSanitizer plus a determinism oracle (per-thread digests vs sequential replay after the concurrent phase) over many short-lived processes, 2..32 threads, injected yields and a core-pinned pass. TSan generalises over timing for the code paths executed concurrently; evidence lists which operation pairs overlapped; exception paths, interpolation and rarely used instantiations run concurrently as well.",
-    "C19": "Compile-and-run observation with a minimal archetype scalar (explicit integer construction only, deleted floating conversion, member-less numeric_limits, indeterminate default value) through every template the harness instantiates, under exact oracles; the evidence lists the instantiated library entities and the operations actually used.",
+    "C19": "Compile-and-run observation with a minimal archetype scalar (explicit integer construction only, constructions from values beyond int counted, deleted floating conversion, numeric_limits not specialised, indeterminate default value) through every template the harness instantiates, under exact oracles; the evidence lists the instantiated library entities and the operations actually used.",
     "C20": "Sanitizer + metamorphic exploration of the real example sources: ASan/UBSan/libstdc++ assertions and checked STL builds of the example translation units driven over small and large grids, with solution-against-solution oracles that do not depend on discretisation error.",
 }
 
